@@ -126,6 +126,23 @@ def differential(chunk=None):
                 if got != t % cargs:
                     bad += 1
                     print("M3 mismatch", v, t, repr(got), repr(t % cargs))
+            for tmpl, nargs in (("%d %d", 1), ("%08X", 2), ("a=%x b=%X c=%d", 2)):
+                sa = tuple(pinned(v) for _ in range(nargs))
+                ca = tuple(v for _ in range(nargs))
+                try:
+                    tmpl % ca
+                    exp = None
+                except TypeError as ex:
+                    exp = str(ex)
+                try:
+                    tmpl % sa
+                    got = None
+                except TypeError as ex:
+                    got = str(ex)
+                n += 1
+                if got != exp:
+                    bad += 1
+                    print("M3 arity mismatch", tmpl, nargs, got, exp)
             got = deep_realize(hex(pinned(v)))
             n += 1
             if got != hex(v):
